@@ -73,6 +73,9 @@ thread_local! {
     /// Called before each poll of an internally spawned task: true = requeue instead of running.
     static DEFER: RefCell<Option<Box<dyn FnMut() -> bool>>> = const { RefCell::new(None) };
 }
+thread_local! { static IO_YIELD: RefCell<Option<Box<dyn FnMut() -> bool>>> = const { RefCell::new(None) }; }
+/// Decides, per asynchronous socket send, whether the send yields once before completing.
+pub fn set_io_yield_decider(f: Option<Box<dyn FnMut() -> bool>>) { IO_YIELD.with(|c| *c.borrow_mut() = f); }
 pub fn set_defer_decider(f: Option<Box<dyn FnMut() -> bool>>) { DEFER.with(|c| *c.borrow_mut() = f); }
 thread_local! {
     /// spawn site of every internally spawned task that has not finished yet (leak diagnostics)
@@ -138,7 +141,23 @@ impl UdpSocket {
     }
     pub fn local_addr(&self) -> io::Result<SocketAddr> { self.0.local_addr() }
     pub fn try_send_to(&self, buf: &[u8], to: SocketAddr) -> io::Result<usize> { self.0.try_send_to(buf, to) }
-    pub async fn send_to(&self, buf: &[u8], to: SocketAddr) -> io::Result<usize> { self.0.try_send_to(buf, to) }
+    pub async fn send_to(&self, buf: &[u8], to: SocketAddr) -> io::Result<usize> {
+        // a real socket's send can be Pending (full buffer): the simulator may make this one yield once
+        if IO_YIELD.with(|c| c.borrow_mut().as_mut().map(|f| f()).unwrap_or(false)) {
+            let mut yielded = false;
+            poll_fn(|cx| {
+                if yielded {
+                    Poll::Ready(())
+                } else {
+                    yielded = true;
+                    cx.waker().wake_by_ref();
+                    Poll::Pending
+                }
+            })
+            .await;
+        }
+        self.0.try_send_to(buf, to)
+    }
     pub fn try_recv_from(&self, buf: &mut [u8]) -> io::Result<(usize, SocketAddr)> { self.0.try_recv_from(buf) }
     pub async fn readable(&self) -> io::Result<()> { poll_fn(|cx| self.0.poll_readable(cx)).await }
     pub async fn writable(&self) -> io::Result<()> { Ok(()) }
